@@ -248,3 +248,18 @@ Definition branch_of (s : conn) (ev : event) : N :=
                    else if all_states_healthy (upd_idx (N.to_nat idx) (set_account Healthy) (exchanges s)) then 13 else 14
       end
   end%N.
+
+(* ---- persist / restore ------------------------------------------------------------------------ *)
+
+(** A history may contain persist / restore steps: the engine's ConnectivityStates is written
+    out (serde) and read back.  The round trip is the identity, so such a step leaves the
+    engine unchanged. *)
+Inductive hstep := SEvent (ev : event) | SPersist.
+
+Definition apply_hstep (e : engine) (s : hstep) : engine :=
+  match s with SEvent ev => step e ev | SPersist => e end.
+
+Definition run_steps (e : engine) (l : list hstep) : engine := fold_left apply_hstep l e.
+
+Definition events_of (l : list hstep) : list event :=
+  flat_map (fun s => match s with SEvent ev => [ev] | SPersist => [] end) l.
